@@ -32,7 +32,7 @@ def build(variant="default"):
     for s in srcs:
         o = os.path.join(d, os.path.basename(s)[:-2] + ".o")
         objs.append(o)
-        cmds.append(["clang", "-O1", "-g", "-w"] + SAN_MEM + cov + VARIANTS[variant] + ["-Dmain=w2c2_main", "-c", s, "-o", o])
+        cmds.append(["clang", "-O1", "-g", "-w"] + SAN_MEM + cov + VARIANTS[variant] + ["-include", os.path.join(ENG, "sim_libc_points.h"), "-Dmain=w2c2_main", "-c", s, "-o", o])
     cxx = ["clang++", "-std=c++17", "-O1", "-g"] + SAN + ["-I" + SIMCORE]
     cmds.append(cxx + ["-c", os.path.join(SIMCORE, "simcore.cpp"), "-o", os.path.join(d, "simcore.o")])
     cmds.append(cxx + ["-c", os.path.join(ENG, "simxl.cpp"), "-o", os.path.join(d, "simxl_h.o")])
